@@ -528,3 +528,37 @@ Proof. unfold xavier_param. cbn [smul ssqrt sdiv sof_N Rops]. rewrite N2Z.inj_ad
 Lemma Rconv_ratio_exact scale c n :
   scaled_sqrt_ratio Rconv scale c n = smul Rops scale (ssqrt Rops (sdiv Rops (sof_N Rops c) (sof_N Rops n))).
 Proof. reflexivity. Qed.
+
+(* ---------------------------------------------------------------------------------------- *)
+(* A concrete oracle and conversions, used only by the non-vacuity examples: the generator
+   state is a counter of draws; uniform draws walk from lower to upper (so the first one
+   equals lower and exercises the fix-up); bernoulli draws alternate. *)
+Local Open Scope Z_scope.
+Definition ex_draws (a b : fp) (n : N) : list fp :=
+  match a, b with
+  | FOrd lo, FOrd up => map (fun i => FOrd (Z.min up (lo + Z.of_nat i))) (seq 0 (N.to_nat n))
+  | _, _ => repeat FNaN (N.to_nat n)
+  end.
+Definition ex_oracle : oracle N :=
+  mkOracle N
+    (fun _ n g => (map Nat.even (seq 0 (N.to_nat n)), (g + n)%N))
+    (fun a b n g => (ex_draws a b n, (g + n)%N))
+    (fun m _ n g => (repeat m (N.to_nat n), (g + n)%N))
+    (fun m _ n g => (repeat m (N.to_nat n), (g + n)%N)).
+
+Lemma ex_oracle_ok : oracle_ok ex_oracle.
+Proof.
+  constructor; cbn [ex_oracle o_bern o_unif o_norm o_lognorm fst]; intros.
+  - rewrite map_length, seq_length. reflexivity.
+  - unfold ex_draws. destruct a, b; rewrite ?repeat_length, ?map_length, ?seq_length; reflexivity.
+  - apply repeat_length.
+  - apply repeat_length.
+  - intros lo up n g x Hle Hin. cbn [ex_oracle o_unif fst ex_draws] in Hin.
+    apply in_map_iff in Hin. destruct Hin as [i [<- _]].
+    exists (Z.min up (lo + Z.of_nat i)). split; [reflexivity|lia].
+Qed.
+
+(* a conversion for the examples: every real is seen as the float 0.5 by the validation *)
+Definition Rconv_half : conv R :=
+  @mkConv R (fun _ => FOrd 1056964608) (fun _ => (1 / 2)%R)
+          (fun scale c n => (scale * sqrt (IZR (Z.of_N c) / IZR (Z.of_N n)))%R).
